@@ -112,7 +112,8 @@ UrlFamily == {With(UrlF, [required |-> rq]) : rq \in BOOLEAN}
 ByteS == SeqsUpTo({0, 65, 255}, IF Big THEN 4 ELSE 3)
 \* (57 / 58 bytes: exactly one 76-column line of base64 text, and the first length beyond it)
 LongBytes == {[i \in 1..n |-> (i * 11) % 256] : n \in {57, 58}}
-BytesCands == {BytesV(y) : y \in ByteS \cup LongBytes} \cup {StrV(s) : s \in SeqsUpTo({"a", "=", " "}, 2)} \cup NonStrings
+\* (ObjV("bytearray"): a mutable byte buffer is not a bytes value)
+BytesCands == {BytesV(y) : y \in ByteS \cup LongBytes} \cup {StrV(s) : s \in SeqsUpTo({"a", "=", " "}, 2)} \cup NonStrings \cup {ObjV("bytearray")}
 BytesFamily == {With(BytesF, [encoding |-> e, required |-> rq]) : e \in {"base64", "hex"}, rq \in BOOLEAN}
 
 FileS == {<<"f">>, <<"d">>, <<"m">>, <<"g">>, <<"d", "/", "g">>, <<"$", "/", "f">>, <<"$", "/", "d">>, <<"$", "/", "d", "/", "g">>, <<"$", "/", "m">>, <<>>, <<"$">>}
